@@ -220,6 +220,19 @@ def rule_keys(ctx):
     keys = {n.targets[0].slice.value for n in walk_no_nested(pu) if isinstance(n, ast.Assign) and isinstance(n.targets[0], ast.Subscript) and isinstance(n.targets[0].slice, ast.Constant)}
     keys |= {k.value for n in walk_no_nested(pu) if isinstance(n, ast.Assign) and isinstance(n.value, ast.Dict) for k in n.value.keys if isinstance(k, ast.Constant)}
     ctx.ob("C07.KEYS", pu, f"the LIST parser produces {sorted(need)} (has {sorted(keys)})", need <= keys, f"the LIST parser lacks keys {sorted(need - keys)}", construct=f"keys:list {sorted(need - keys)}")
+    for parser_name in ("parse_list_line_unix", "parse_list_line_windows"):
+        pf_ = p.methods("BaseClient").get(parser_name)
+        if pf_ is None:
+            continue
+        ks = [n.targets[0].slice for n in walk_no_nested(pf_) if isinstance(n, ast.Assign) and isinstance(n.targets[0], ast.Subscript) and isinstance(n.targets[0].slice, ast.Constant)
+              and isinstance(n.targets[0].slice.value, str)]
+        odd = [k for k in ks if k.value.lower() in need and k.value != k.value.lower()]
+        ctx.ob("C07.KEYS", odd[0] if odd else pf_, f"{parser_name}: the keys it stores are spelled as the client reads them (lower case)", not odd,
+               f"{parser_name} stores the key {odd[0].value!r}: the client reads info[{odd[0].value.lower()!r}]" if odd else "", construct=f"keys:{parser_name}:case")
+    pw = p.methods("BaseClient").get("parse_list_line_windows")
+    if pw is not None:
+        kw_ = {n.targets[0].slice.value for n in walk_no_nested(pw) if isinstance(n, ast.Assign) and isinstance(n.targets[0], ast.Subscript) and isinstance(n.targets[0].slice, ast.Constant)}
+        ctx.ob("C07.KEYS", pw, f"the Windows LIST parser produces {sorted(need)} (has {sorted(kw_)})", need <= kw_, f"the Windows LIST parser lacks keys {sorted(need - kw_)}", construct=f"keys:windows {sorted(need - kw_)}")
     # type mapping of the unix parser
     tm = {}
     for n in walk_no_nested(pu):
